@@ -179,11 +179,12 @@ inductive Search where
   /-- the field is present but does not end inside the buffer: `throw malformed_packet()` -/
   | truncated
 
-/-- the `while (parser.has_fields())` loop of `write_option`; `dataLen` = `option.data_size()` -/
+/-- the `while (parser.has_fields() && parser.current_namespace_index() == 0)` loop of `write_option`;
+    `dataLen` = `option.data_size()` -/
 def searchLoop (M : Meta) : Nat → Parser → Nat → Nat → Nat → Search
   | 0, p, _, _, cand => .insertAt p cand
   | fuel + 1, p, bit, dataLen, cand =>
-    if hasFields M p then
+    if hasFields M p && p.ns == 0 then
       if p.bit > bit then .insertAt p cand
       else if p.bit = bit then
         if dataLen > p.buf.length - p.ptr then .truncated else .found p
